@@ -23,14 +23,13 @@ theorem schema_up_any (g : Globals) (hg : g.dialect = .mysql) (rc : Bool)
     (heo : execAll rc [] old = some dbO) (hen : execAll rc [] new = some dbN)
     (hdef : ∀ tb ∈ dbO ++ dbN, tb.name ≠ Migration.defaultMigrationTable)
     (hnofk : ∀ tb ∈ dbO ++ dbN, tb.fks = [])
-    (hncm : ∀ tb ∈ dbO ++ dbN, ∀ c ∈ tb.cols, ∀ k ∈ c.opts, k.noComment = true)
     (hboth : ∀ tbO ∈ dbO, ∀ tbN ∈ dbN, tbO.name = tbN.name →
       Abs.OrderCompatible tbN.colNames tbO.colNames ∧ (∀ n ∈ tbN.colNames ++ tbO.colNames, n ≠ "") ∧ tbO.pk = tbN.pk ∧
       (∀ dc : List String, (∀ c ∈ dc, c ∉ tbN.colNames) →
         ∀ s ∈ tbN.idxs, ∀ o ∈ tbO.idxs, o.name = s.name → o ≠ s → ∃ c ∈ o.cols, c ∉ dc)) :
     ∃ up, modelUp g old new = .ok up ∧ c01 g.ignoreOrder dbO dbN up false = .ok () := by
   obtain ⟨d, out, hd, hU, ⟨db', he, heq⟩, hj⟩ := schema_spec_up (g.ign false) hg rfl rc old new dbO dbN ho hn hpo hpn heo hen
-    hdef hnofk hncm hboth
+    hdef hnofk hboth
   have hup0 : modelUp (g.ign false) old new = .ok out.flatten := by
     unfold modelUp
     simp only [hd, hU, bind, Except.bind, pure, Except.pure]
@@ -67,14 +66,13 @@ theorem schema_down_any (g : Globals) (hg : g.dialect = .mysql) (rc : Bool)
     (heo : execAll rc [] old = some dbO) (hen : execAll rc [] new = some dbN)
     (hdef : ∀ tb ∈ dbO ++ dbN, tb.name ≠ Migration.defaultMigrationTable)
     (hnofk : ∀ tb ∈ dbO ++ dbN, tb.fks = [])
-    (hncm : ∀ tb ∈ dbO ++ dbN, ∀ c ∈ tb.cols, ∀ k ∈ c.opts, k.noComment = true)
     (hboth : ∀ tbO ∈ dbO, ∀ tbN ∈ dbN, tbO.name = tbN.name →
       Abs.OrderCompatible tbN.colNames tbO.colNames ∧ (∀ n ∈ tbN.colNames ++ tbO.colNames, n ≠ "") ∧ tbO.pk = tbN.pk ∧
       (∀ dc : List String, (∀ c ∈ dc, c ∉ tbO.colNames) →
         ∀ s ∈ tbN.idxs, ∀ o ∈ tbO.idxs, o.name = s.name → o ≠ s → ∃ c ∈ s.cols, c ∉ dc)) :
     ∃ dn, modelDown g old new = .ok dn ∧ c02 g.ignoreOrder dbO dbN dn false = .ok () := by
   obtain ⟨d, out, hd, hU, ⟨db', he, heq⟩, hj⟩ := schema_spec_down (g.ign false) hg rfl rc old new dbO dbN ho hn hpo hpn heo hen
-    hdef hnofk hncm hboth
+    hdef hnofk hboth
   have hdn0 : modelDown (g.ign false) old new = .ok out.flatten := by
     unfold modelDown
     simp only [hd, hU, bind, Except.bind, pure, Except.pure]
@@ -144,7 +142,6 @@ theorem schema_c03_any (g : Globals) (hg : g.dialect = .mysql) (rc : Bool)
     (heo : execAll rc [] old = some dbO) (hen : execAll rc [] new = some dbN)
     (hdef : ∀ tb ∈ dbO ++ dbN, tb.name ≠ Migration.defaultMigrationTable)
     (hnofk : ∀ tb ∈ dbO ++ dbN, tb.fks = [])
-    (hncm : ∀ tb ∈ dbO ++ dbN, ∀ c ∈ tb.cols, ∀ k ∈ c.opts, k.noComment = true)
     (hboth : ∀ tbO ∈ dbO, ∀ tbN ∈ dbN, tbO.name = tbN.name →
       Abs.OrderCompatible tbN.colNames tbO.colNames ∧ (∀ n ∈ tbN.colNames ++ tbO.colNames, n ≠ "") ∧ tbO.pk = tbN.pk ∧
       (∀ dc : List String, (∀ c ∈ dc, c ∉ tbN.colNames) →
@@ -152,7 +149,7 @@ theorem schema_c03_any (g : Globals) (hg : g.dialect = .mysql) (rc : Bool)
       (∀ dc : List String, (∀ c ∈ dc, c ∉ tbO.colNames) →
         ∀ s ∈ tbN.idxs, ∀ o ∈ tbO.idxs, o.name = s.name → o ≠ s → ∃ c ∈ s.cols, c ∉ dc)) :
     ∃ up down, modelUp g old new = .ok up ∧ modelDown g old new = .ok down ∧ c03 dbO dbN up down = .ok () := by
-  obtain ⟨up, down, h1, h2, h3⟩ := schema_c03 (g.ign false) hg rfl rc old new dbO dbN ho hn hpo hpn heo hen hdef hnofk hncm hboth
+  obtain ⟨up, down, h1, h2, h3⟩ := schema_c03 (g.ign false) hg rfl rc old new dbO dbN ho hn hpo hpn heo hen hdef hnofk hboth
   cases hio : g.ignoreOrder with
   | false =>
     have hgg : g.ign false = g := by rw [← hio]; exact g.ign_self
